@@ -605,7 +605,8 @@ def get_server():
 
 
 def run_top(case):
-    """dns.query.inbound_xfr over real loopback sockets (default query from the zone, UDP modes)"""
+    """dns.query.inbound_xfr / dns.asyncquery.inbound_xfr (zk >= 3) over real loopback sockets (default query from
+    the zone, UDP modes)"""
     _, zk, rel, mode, z0, tu, tt = case[:7]
     _server = get_server()
     _server.script = {"udp": tu, "tcp": tt}
@@ -613,8 +614,13 @@ def run_top(case):
     z = build_zone(zk % 3, rel, z0)
     code = 0
     try:
-        dns.query.inbound_xfr("127.0.0.1", z, port=_server.port, timeout=5, lifetime=5,
-                              udp_mode=dns.query.UDPMode(mode))
+        if zk >= 3:
+            # the asyncio twin (its own copy of the UDP / TCP mode selection)
+            asyncio.run(dns.asyncquery.inbound_xfr("127.0.0.1", z, port=_server.port, timeout=5, lifetime=5,
+                                                   udp_mode=dns.query.UDPMode(mode)))
+        else:
+            dns.query.inbound_xfr("127.0.0.1", z, port=_server.port, timeout=5, lifetime=5,
+                                  udp_mode=dns.query.UDPMode(mode))
     except Exception as e:  # noqa
         c = exc_code(e)
         if c.code >= 800:
@@ -636,8 +642,12 @@ def run_top_query(case):
             q, _s = dns.xfr.make_query(z, serial=qser, keyring=TSIG_KEYRING, keyname=dns.name.from_text("xfr-key."))
         else:
             q, _s = dns.xfr.make_query(z, serial=qser)
-        dns.query.inbound_xfr("127.0.0.1", z, query=q, port=_server.port, timeout=5, lifetime=5,
-                              udp_mode=dns.query.UDPMode(mode))
+        if zk >= 3:
+            asyncio.run(dns.asyncquery.inbound_xfr("127.0.0.1", z, query=q, port=_server.port, timeout=5, lifetime=5,
+                                                   udp_mode=dns.query.UDPMode(mode)))
+        else:
+            dns.query.inbound_xfr("127.0.0.1", z, query=q, port=_server.port, timeout=5, lifetime=5,
+                                  udp_mode=dns.query.UDPMode(mode))
     except Exception as e:  # noqa
         c = exc_code(e)
         if c.code >= 800:
@@ -1671,7 +1681,7 @@ def top_cases(ctx, rng, n):
     """dns.query.inbound_xfr end to end over loopback sockets: udp_mode NEVER / TRY_FIRST / ONLY; the UDP
     answer is the complete response, the bare SOA (use TCP), or a broken one"""
     for _ in range(n):
-        zk, rel = rng.randrange(3), rng.randrange(2)
+        zk, rel = rng.randrange(3) + (3 if rng.random() < 0.4 else 0), rng.randrange(2)   # 3..5: dns.asyncquery.inbound_xfr
         mode = rng.choice([0, 1, 1, 2])
         chain = gen_chain(rng, rng.choice([1, 2]), size=rng.choice([1, 2, 4]))
         r = rng.random()
@@ -1705,7 +1715,7 @@ def top_query_cases(ctx, rng, n):
     """dns.query.inbound_xfr with an explicit query: serial argument None / 0 / the zone's / an older one the
     server has no history for / out of range; with and without a TSIG keyring; the three UDP modes"""
     for _ in range(n):
-        zk, rel = rng.randrange(3), rng.randrange(2)
+        zk, rel = rng.randrange(3) + (3 if rng.random() < 0.4 else 0), rng.randrange(2)   # 3..5: dns.asyncquery.inbound_xfr
         chain = gen_chain(rng, rng.choice([1, 2]), size=rng.choice([1, 2, 4]))
         z0 = chain[0]
         s0 = soa_id(z0) & 0xFFFFFFFF
